@@ -186,7 +186,7 @@ def run_family(family, n, loops=False, vals=(1, 2), inf=3, types=(1, 2), probs=(
                                % (family, n, len(recs), ninit, fin))
     if family == "GIVEN" and ninit != len(set(scenario_key(s) for s in given)):
         raise MachineryFailure("GIVEN N=%d: %d scenarios passed, %d initial states" % (n, len(given), ninit))
-    if ninit > 1 and res.coverage.get("Square", (0, 0))[1] == 0 and n > 2:
+    if family != "GIVEN" and n > 2 and res.coverage.get("Square", (0, 0))[1] == 0:
         raise MachineryFailure("vacuous TLC run (%s, N=%d): Square never taken" % (family, n))
     if cpath:
         res.stdout = ""
@@ -259,6 +259,85 @@ class Out(object):
 def _eon():
     import EoN
     return EoN
+
+
+def merge(tot, o, cap=3):
+    tot.evals += o.evals
+    tot.bound += o.bound
+    for nt in o.notes:
+        if nt not in tot.notes:
+            tot.notes.append(nt)
+    for p in o.problems:
+        same = [q for q in tot.problems if q["key"] == p["key"]]
+        if len(same) < cap:
+            tot.problems.append(p)
+
+
+def fork_map(fn, items, stop_after=3, procs=None, deadline=900):
+    """Run fn over items in forked workers (interleaved slices).  A worker stops after
+    `stop_after` items with problems (broken code can make every scenario fail or be
+    slow; a few reports per class are enough).  Results come back through files in a
+    private temp dir, so no pipe can fill up, and the whole map is bounded by
+    `deadline` seconds (MachineryFailure when exceeded).
+    Returns (merged Out, number of items processed)."""
+    import multiprocessing as mp
+    import shutil
+    import tempfile
+    import time
+    import traceback
+    items = list(items)
+    procs = procs or min(16, os.cpu_count() or 1)
+
+    def work(sl):
+        tot, done, nbad = Out(), 0, 0
+        for it in sl:
+            o = fn(it)
+            merge(tot, o)
+            done += 1
+            if o.problems:
+                nbad += 1
+                if nbad >= stop_after:
+                    break
+        return tot, done
+    if procs <= 1 or len(items) < 2 * procs:
+        return work(items)
+    d = tempfile.mkdtemp(prefix="eonverif_c17_")
+
+    def child(k):
+        try:
+            r = ("ok",) + work(items[k::procs])
+        except BaseException:
+            r = ("error", traceback.format_exc(), 0)
+        with open(os.path.join(d, "%d.tmp" % k), "wb") as fh:
+            pickle.dump(r, fh)
+        os.rename(os.path.join(d, "%d.tmp" % k), os.path.join(d, "%d.pickle" % k))
+    ctx = mp.get_context("fork")
+    ps = [ctx.Process(target=child, args=(k,)) for k in range(procs)]
+    try:
+        for p in ps:
+            p.start()
+        t_end = time.time() + deadline
+        for p in ps:
+            p.join(max(0.0, t_end - time.time()))
+        if any(p.is_alive() for p in ps):
+            raise MachineryFailure("C17 workers did not finish within %ds" % deadline)
+        tot, done = Out(), 0
+        for k in range(procs):
+            f = os.path.join(d, "%d.pickle" % k)
+            if not os.path.exists(f):
+                raise MachineryFailure("C17 worker %d died without a result" % k)
+            with open(f, "rb") as fh:
+                r = pickle.load(fh)
+            if r[0] != "ok":
+                raise MachineryFailure("C17 worker failed:\n" + r[1])
+            merge(tot, r[1], cap=6)
+            done += r[2]
+        return tot, done
+    finally:
+        for p in ps:
+            if p.is_alive():
+                p.kill()
+        shutil.rmtree(d, ignore_errors=True)
 
 
 def answer_problem(res, n, adm):
